@@ -48,11 +48,11 @@ func allocStateString(s txfile.VerifAllocSnap) string {
 }
 
 type allocReplay struct {
-	Init   string   `json:"init_state"`
-	Ops    []string `json:"ops"`
-	Step   int      `json:"step"`
-	Impl   string   `json:"impl"`
-	Model  string   `json:"model"`
+	Init  string   `json:"init_state"`
+	Ops   []string `json:"ops"`
+	Step  int      `json:"step"`
+	Impl  string   `json:"impl"`
+	Model string   `json:"model"`
 }
 
 // randRegions builds a sorted, non adjacent region list inside [lo, hi).
